@@ -101,6 +101,41 @@ def compressorConstruct (enc : Nat → Int → Out Unit) (v : Nat) (level : Int)
   if !levelInRange v level && Gen.levelOutOfRangeIsErr then .err "level-out-of-range"
   else enc v level
 
+/-! ## default compression: `impl From<CompressionType> for CompressionWithLevel`, `impl Default for CompressionWithLevel`
+
+```rust
+impl Default for CompressionWithLevel {
+    fn default() -> Self {
+        #[cfg(feature = "zstd-compression")] return CompressionType::Zstd.into();
+        #[cfg(feature = "gzip-compression")] return CompressionType::Gzip.into();
+        #[cfg(feature = "xz-compression")]   return CompressionType::Xz.into();
+        CompressionType::None.into()
+    }
+}
+impl From<CompressionType> for CompressionWithLevel {
+    fn from(value: CompressionType) -> Self { match value { CompressionType::None => CompressionWithLevel::None,
+        CompressionType::Gzip => CompressionWithLevel::Gzip(9), … } }
+}
+```
+Both are the generated tables `Gen.defaultOfType` / `Gen.defaultPreference` / `Gen.defaultFallback`. A `CompressionType` is its
+index in `Gen.compressionVariants` (declaration order), a `CompressionWithLevel` variant its index in `Gen.levelVariants`.
+The cargo features are the parameter `enabled` (`enabled t` = the feature that compiles type `t`'s codec in is on). -/
+
+/-- `CompressionWithLevel::from(t)`: (variant, level) — level 0 for the variant without one -/
+def withLevelOfType (t : Nat) : Option (Nat × Int) :=
+  match Gen.defaultOfType.find? (fun e => e.1 == t) with
+  | some e => some (e.2.1, e.2.2.getD 0)
+  | none => none
+
+/-- the type `Default::default()` converts: the first preference whose feature is on, else the fall-back -/
+def defaultType (enabled : Nat → Bool) : Nat :=
+  match Gen.defaultPreference.find? (fun p => enabled p.1) with
+  | some p => p.2
+  | none => Gen.defaultFallback
+
+/-- `CompressionWithLevel::default()` -/
+def defaultCompression (enabled : Nat → Bool) : Option (Nat × Int) := withLevelOfType (defaultType enabled)
+
 /-! ## capability text: `FileOptions::new(dest).caps(text)`
 
 ```rust
